@@ -132,7 +132,7 @@ def shrink(line, differs):
 def check(run, replay=None):
     tier, seed = run.tier, run.seed
     rng = random.Random(seed * 65537 + 10)
-    C.standard_coq_phase(run, CID)
+    C.standard_coq_phase(run, CID, gens=("stack",))
     ok, msg = C.ensure_ocaml()
     bd = C.build_dir()
     exe = os.path.join(bd, "c10")
